@@ -358,6 +358,10 @@ func (v *env) chunkCheck(cs chunks.ChunkStore, h hash.Hash, k kase) {
 		}
 		toks = append(toks, fmt.Sprintf("%s.%s:%s", f.Table, f.Field, strings.Join(ns, ",")))
 	}
+	if len(toks) > 0 {
+		// one evaluated case per decoded chunk (oracle 2 ran on it, with or without a model)
+		v.e.Rep.Count(kind+"|"+strings.Join(fieldNames(fs), ","), nontrivial || len(fs) > 1)
+	}
 	// CORRESPONDENCE with the generated model
 	if v.m != nil && len(toks) > 0 {
 		sort.Strings(toks)
@@ -372,8 +376,6 @@ func (v *env) chunkCheck(cs chunks.ChunkStore, h hash.Hash, k kase) {
 		sort.Ints(impl)
 		want := "w=" + hx.NatList(impl)
 		got := strings.SplitN(resp, " ", 2)[0]
-		canon := kind + "|" + strings.Join(fieldNames(fs), ",")
-		v.e.Rep.Count(canon, nontrivial || len(fs) > 1)
 		if len(v.e.Rep.Samples) < 6 && nontrivial {
 			v.e.Rep.Sample(line + " -> " + resp)
 		}
